@@ -76,8 +76,8 @@ where
                     break;
                 },
                 Err(err) => {
-                    error!("ObserverWorker unexpected error: {:?}", err);
-                    panic!("ObserverWorker unexpected error: {:?}", err);
+                    // A request that cannot be applied (or failed) must not stop background maintenance
+                    error!("ObserverWorker request failed: {:?}", err);
                 }
             }
         }
